@@ -25,6 +25,8 @@ type Obligation struct {
 	Desc   string
 	Func   string
 	Case   string
+	Block  int          // top-level block of the obligation (-1: none)
+	Reach  map[int]bool // blocks whose facts are relevant (ancestors of Block in the CFG); nil: all
 
 	// filled by the solver stage
 	Status string // unsat sat unknown timeout error
@@ -40,11 +42,17 @@ type Script struct {
 	sigs     map[string]string
 	declared map[string]bool
 	dropped  int
+	qcount   int
+	local    bool
+	curBlock int   // index of the top-level block being translated (-1: none)
+	factBlk  []int // per fact: the top-level block it was emitted in (-1: global)
 	facts    []string
 	obls     []*Obligation
 }
 
-func newScript() *Script { return &Script{declared: map[string]bool{}, sigs: map[string]string{}} }
+func newScript() *Script {
+	return &Script{declared: map[string]bool{}, sigs: map[string]string{}, curBlock: -1}
+}
 
 func (s *Script) declare(name, sig string) {
 	if s.declared[name] {
@@ -71,7 +79,46 @@ func (s *Script) fact(f string) {
 			}
 		}
 	}
+	if strings.HasPrefix(f, "(forall ") && !strings.Contains(f, ":qid ") {
+		if i := strings.LastIndex(f, ":pattern "); i >= 0 {
+			s.qcount++
+			tag := "eng"
+			switch {
+			case strings.Contains(f, "|sub$") && strings.Contains(f, "|subinv$"):
+				tag = "subinv"
+			case strings.HasPrefix(f, "(forall ((o Int)) (! (and (<= ") || strings.HasPrefix(f, "(forall ((o Int)) (! (<= 0") || strings.HasPrefix(f, "(forall ((a Int) (i Int))"):
+				tag = "heapver"
+			case strings.HasPrefix(f, "(forall ((r Int)) (! (=> (< r "):
+				tag = "allocframe"
+			case strings.HasPrefix(f, "(forall ((o Int)) (! (=> (and (< 0 o)"):
+				tag = "frame"
+			case strings.Contains(f, "|ap!"):
+				tag = "append"
+			case strings.Contains(f, "|cp!"):
+				tag = "copy"
+			case strings.Contains(f, "|pick!") || strings.Contains(f, "|key!") || strings.Contains(f, "|rank!"):
+				tag = "enum"
+			case strings.Contains(f, "|OP$"):
+				tag = "reveal"
+			}
+			f = f[:i] + fmt.Sprintf(":qid E%d_%s ", s.qcount, tag) + f[i:]
+		}
+	}
 	s.facts = append(s.facts, f)
+	if s.local {
+		s.factBlk = append(s.factBlk, s.curBlock)
+	} else {
+		s.factBlk = append(s.factBlk, -1)
+	}
+}
+
+// factLocal records a fact that only matters on paths through the block currently being translated (path-guarded
+// assumptions and definitions of names introduced there); such facts are sliced away for obligations in blocks that
+// the current block cannot reach. All other facts (axioms, type facts, lazily emitted definitions) are global.
+func (s *Script) factLocal(f string) {
+	s.local = true
+	s.fact(f)
+	s.local = false
 }
 
 // ---------------------------------------------------------------------------------------------
@@ -510,7 +557,7 @@ func (tr *Tr) nameTerm(base, sort, term string) string {
 	tr.fresh++
 	sym := smtName(fmt.Sprintf("%s@%d", base, tr.fresh))
 	tr.sc.declare(sym, "() "+sort)
-	tr.sc.fact(sEq(sym, term))
+	tr.sc.factLocal(sEq(sym, term))
 	return sym
 }
 
@@ -631,6 +678,9 @@ func (tr *Tr) markHeapKinds(l Loc, t types.Type) {
 func (tr *Tr) heapVersionAxiom(name, sym, sort, top string) {
 	kind, ok := tr.heapKind[name]
 	if !ok {
+		return
+	}
+	if kind == "nonneg" {
 		return
 	}
 	var sel, vars, pat string
